@@ -106,6 +106,48 @@ def sizing_argument_roles(F, R):
     R.floor('sizing-function arguments checked for their role', n, 8)
 
 
+def queue_capacity_roles(F, R):
+    """zero copy connection: the two queue capacities (submission = buffer size, completion = buffer + max borrows + 1) travel as two
+    plain usize values through const_memory_size / init / Channel::new.  At every hop the value that sizes the submission queue is the
+    submission capacity and the one that sizes the completion queue is the completion capacity: swapped, everything type-checks and the
+    receiver cannot return every borrowed sample (completion queue too small) while memory is wasted on the other queue."""
+    ZC = 'iceoryx2_cal::zero_copy_connection::common::details::'
+    n = 0
+    # 1. the builder hands submission_queue_size() / completion_queue_size() to the parameters of that name
+    b = F.find_fns(r'^' + re.escape(ZC) + r'Builder::<.*>::create_or_open_shm$')
+    for g in (lib.family(F, b[0]) if b else []):
+        for c in g.calls(r'SharedManagementData::(init|const_memory_size)$'):
+            base = 2 if c.callee.endswith('::init') else 0
+            for k, role in ((base, 'submission'), (base + 1, 'completion')):
+                n += 1
+                ok = lib.has_origin(g, c.args[k], r'::%s_queue_size$' % role) and not lib.has_origin(g, c.args[k], r'::%s_queue_size$' % ('completion' if role == 'submission' else 'submission'))
+                R.ob('FLOW', 'FLOW::%s::%s::%s-capacity-argument' % (fnkey(g), c.callee.rsplit('::', 1)[-1], role), ok, 'the %s capacity parameter of %s receives %s' % (role, core.short(c.callee), sym_nstr(sym(g, c.args[k]))[:80]), c.where, g)
+    # 2. init forwards its two parameters to Channel::new in the same roles
+    ini = F.fn_opt(ZC + 'SharedManagementData::init')
+    if ini is None:
+        R.missing('SharedManagementData::init')
+    else:
+        for c in ini.calls(r'details::Channel::new$'):
+            for k, (nm, pos) in enumerate((('submission_queue_capacity', 3), ('completion_queue_capacity', 4))):
+                n += 1
+                R.ob('FLOW', 'FLOW::%s::Channel::new::%s' % (fnkey(ini), nm), lib.param_is(ini, c.args[k], nm, pos), 'Channel::new argument %d is %s' % (k + 1, sym_nstr(sym(ini, c.args[k]))[:60]), c.where, ini)
+    # 3. Channel::new sizes each queue with the parameter of its role
+    ch = F.fn_opt(ZC + 'Channel::new')
+    if ch is None:
+        R.missing('Channel::new')
+    else:
+        for a in lib.agg_sites(ch, r'details::Channel$'):
+            names = a.node[2][1][3]
+            for fld, (nm, pos) in (('submission_queue', ('submission_queue_capacity', 1)), ('completion_queue', ('completion_queue_capacity', 2))):
+                if fld in names:
+                    n += 1
+                    o = lib.origins(ch, a.node[2][2][names.index(fld)])
+                    want = 'arg:%d' % lib.param_index(ch, nm, pos)
+                    args = sorted(x for x in o if x.startswith('arg:'))
+                    R.ob('FLOW', 'FLOW::%s::%s-sized-by-its-capacity' % (fnkey(ch), fld), args == [want], 'Channel.%s is built from parameter(s) %s; required %s (%s)' % (fld, args, want, nm), a.where, ch)
+    R.floor('queue capacity hand-overs', n, 8)
+
+
 def formula_source(f, operand):
     """Alternatives of the chunk count: through the documented preallocate-override hook and through match phis."""
     t = sym(f, operand)
@@ -264,6 +306,7 @@ def error_variants(F, R):
 
 
 def check(F, R, tier):
+    queue_capacity_roles(F, R)
     sizing_argument_roles(F, R)
     lib.flavour_siblings(R, F, r'^iceoryx2::service::builder::(publish_subscribe|request_response)::Builder::<.*>::(create|open|open_or_create)(_with_attributes)?$', 'SIBLINGS', 'the QoS settings a service is created with are prepared (zero values normalised, type details) the same way for every payload flavour', floor=24)
     formulas(F, R)
